@@ -51,7 +51,8 @@ class MediaMessageProtocolEntity(ProtomessageProtocolEntity):
     def toProtocolTreeNode(self):
         node = super(MediaMessageProtocolEntity, self).toProtocolTreeNode()
         protoNode = node.getChild("proto")
-        protoNode["mediatype"] = self.media_type
+        if self.media_type is not None:
+            protoNode["mediatype"] = self.media_type
         return node
 
     @classmethod
